@@ -13,8 +13,10 @@ import (
 	"os"
 	"sort"
 	"strings"
+	"sync"
 	"time"
 
+	goheader "github.com/celestiaorg/go-header"
 	"github.com/libp2p/go-libp2p/core/crypto"
 
 	"verifharness/bm"
@@ -26,11 +28,75 @@ import (
 
 const idle = 24 * time.Hour // the tickers of the loops never fire: every scan is started by the harness
 
+// pstore: the part of a go-header store the P2P store loops of the block manager read (Height, GetByHeight).  Heights
+// initialHeight, initialHeight+1, ... hold the items in the order they arrived.  `vis` is the height the store reports:
+// it is raised by the ops that poll, so that a stray wake-up of a loop never sees more than the last intended poll;
+// `hold` (during the start-up barrier) makes it report the node's own height.
+type pstore[H goheader.Header[H]] struct {
+	goheader.Store[H]
+	mu      sync.Mutex
+	base    uint64
+	items   []H
+	tags    []string // "H3", "D3", "JD3", "FH3", ... per item
+	vis     uint64
+	hold    *uint64
+	fetched map[uint64]bool // heights fetched since the node's last start
+	polls   int             // Height() calls: a store loop asks once, at the beginning of every poll
+}
+
+func (p *pstore[H]) nPolls() int {
+	p.mu.Lock()
+	defer p.mu.Unlock()
+	return p.polls
+}
+
+func (p *pstore[H]) Height() uint64 {
+	p.mu.Lock()
+	defer p.mu.Unlock()
+	p.polls++
+	if p.hold != nil {
+		return *p.hold
+	}
+	return p.vis
+}
+
+func (p *pstore[H]) GetByHeight(_ context.Context, k uint64) (H, error) {
+	p.mu.Lock()
+	defer p.mu.Unlock()
+	var zero H
+	if k <= p.base || k > p.base+uint64(len(p.items)) {
+		return zero, fmt.Errorf("height %d not in store", k)
+	}
+	p.fetched[k] = true
+	return p.items[k-p.base-1], nil
+}
+
+func (p *pstore[H]) add(it H, tag string) {
+	p.mu.Lock()
+	defer p.mu.Unlock()
+	p.items = append(p.items, it)
+	p.tags = append(p.tags, tag)
+}
+
+func (p *pstore[H]) top() uint64 {
+	p.mu.Lock()
+	defer p.mu.Unlock()
+	return p.base + uint64(len(p.items))
+}
+
+func (p *pstore[H]) setVis(v uint64, hold *uint64) {
+	p.mu.Lock()
+	defer p.mu.Unlock()
+	p.vis, p.hold = v, hold
+}
+
 type loops struct {
 	cancelR  context.CancelFunc
 	cancelS  context.CancelFunc
 	retrDone chan struct{}
 	syncDone chan struct{}
+	hsDone   chan struct{}
+	dsDone   chan struct{}
 	errCh    chan error
 }
 
@@ -62,6 +128,9 @@ type World struct {
 	lastH       uint64
 	advPriv     crypto.PrivKey
 	advPub      crypto.PubKey
+	hs          *pstore[*types.SignedHeader] // the node's P2P header store (survives restarts of the node)
+	ds          *pstore[*types.Data]         // the node's P2P data store
+	p2pStart    uint64                       // chain height when the store loops of the running process started
 	prop        string          // FNODE_PROP: report only the findings of this property ("" = all)
 	lastInc     uint64          // DA-included height after the previous op
 	fromInc     uint64          // ... when the last run / start began
@@ -143,7 +212,52 @@ func (w *World) startLoops() {
 	m := w.full.M
 	go func() { defer close(lp.retrDone); m.RetrieveLoop(ctx) }()
 	w.lp = lp
+	// the REAL P2P store loops; barrier: their cursors are initialised (with the chain height) before anything else
+	// happens - while it lasts the stores report exactly that height, so the barrier polls hand nothing over
+	h := w.full.Height()
+	w.p2pStart = h
+	w.hs.setVis(w.hs.vis, &h)
+	w.ds.setVis(w.ds.vis, &h)
+	w.hs.fetched, w.ds.fetched = map[uint64]bool{}, map[uint64]bool{}
+	lp.hsDone, lp.dsDone = make(chan struct{}), make(chan struct{})
+	go func() { defer close(lp.hsDone); m.HeaderStoreRetrieveLoop(ctx) }()
+	go func() { defer close(lp.dsDone); m.DataStoreRetrieveLoop(ctx) }()
+	w.pollStore(m.VerifHeaderStoreSignal, w.hs.nPolls, lp.hsDone)
+	w.pollStore(m.VerifDataStoreSignal, w.ds.nPolls, lp.dsDone)
+	w.hs.setVis(w.hs.vis, nil)
+	w.ds.setVis(w.ds.vis, nil)
 	w.startSync()
+}
+
+// pollStore: one poll of a store loop, and the certainty that it is over: the loop asks the store for its height
+// exactly once, at the beginning of a poll; a second wake-up is queued once the first poll has begun, and when the
+// store is asked again the first poll is over (the second one finds nothing new and leaves no wake-up behind)
+func (w *World) pollStore(signal func() bool, polls func() int, done chan struct{}) bool {
+	deadline := time.Now().Add(20 * time.Second)
+	for i := 0; i < 2; i++ {
+		n := polls()
+		for !signal() {
+			if time.Now().After(deadline) {
+				w.report("C02/harness/store-loop-timeout", "a P2P store loop did not take a wake-up within 20 s")
+				return false
+			}
+			time.Sleep(20 * time.Microsecond)
+		}
+		for polls() <= n {
+			select {
+			case <-done:
+				w.report("C02/harness/store-loop-returned", "a P2P store loop returned")
+				return false
+			default:
+			}
+			if time.Now().After(deadline) {
+				w.report("C02/harness/store-loop-timeout", "a P2P store loop did not poll within 20 s")
+				return false
+			}
+			time.Sleep(20 * time.Microsecond)
+		}
+	}
+	return true
 }
 
 func (w *World) startSync() {
@@ -174,6 +288,8 @@ func (w *World) stopLoops() {
 	w.lp.cancelS()
 	w.wait(w.lp.retrDone)
 	w.wait(w.lp.syncDone)
+	w.wait(w.lp.hsDone)
+	w.wait(w.lp.dsDone)
 	w.lp = nil
 }
 
@@ -419,7 +535,7 @@ func (w *World) runIncluder() {
 
 func (w *World) startFull(img map[string][]byte, root string, kind string) string {
 	o := bm.Options{InitialHeight: w.ih, GenesisTime: w.gt, Aggregator: false, Image: img, Root: root, DA: w.da, DAStart: w.dastart,
-		DABlockTime: idle, BlockTime: idle}
+		DABlockTime: idle, BlockTime: idle, HeaderStore: w.hs, DataStore: w.ds}
 	old := w.full
 	env, err := bm.New(o)
 	if old != nil && root == "" {
@@ -610,6 +726,8 @@ func Run(c *hx.Ctx) {
 			w.dastart, _ = o.U64("dastart")
 			w.gt = time.Unix(0, o.I64("gt"))
 			w.da = hx.NewDA()
+			w.hs = &pstore[*types.SignedHeader]{base: w.ih - 1, vis: w.ih - 1, fetched: map[uint64]bool{}}
+			w.ds = &pstore[*types.Data]{base: w.ih - 1, vis: w.ih - 1, fetched: map[uint64]bool{}}
 			w.parts, w.cause, w.lastH = nil, "", 0
 			w.obsH, w.obsD, w.obsAt = map[uint64]bool{}, map[uint64]bool{}, map[string]map[uint64]bool{}
 			p, err := bm.New(bm.Options{InitialHeight: w.ih, GenesisTime: w.gt, Aggregator: true})
@@ -756,6 +874,63 @@ func Run(c *hx.Ctx) {
 			}
 			c.Emit("p2p %s %s", sh, w.observe())
 			w.monitorP2P()
+			w.monitorInclusion(false)
+		case "p2pstore":
+			// items arrive in the node's P2P stores; unless poll=0 the REAL HeaderStoreRetrieveLoop and
+			// DataStoreRetrieveLoop poll once each (order=hd|dh), everything runs until quiescent
+			if w.prod == nil || w.hs == nil {
+				c.Emit("dead")
+				continue
+			}
+			var shown []string
+			if s := o.Str("items"); s != "" && s != "-" {
+				for _, tok := range strings.Split(s, ",") {
+					if w.p2pItem(tok) {
+						shown = append(shown, tok)
+					} else {
+						shown = append(shown, tok+":none")
+					}
+				}
+			}
+			sh := "-"
+			if len(shown) > 0 {
+				sh = strings.Join(shown, ",")
+			}
+			if o.Str("poll") == "0" {
+				c.Emit("p2padd %s hs=%d ds=%d", sh, w.hs.top(), w.ds.top())
+				continue
+			}
+			if w.full == nil || w.full.M == nil || w.dead {
+				c.Emit("dead")
+				continue
+			}
+			w.from = w.full.DS.NumWrites()
+			w.fromH = w.full.Height()
+			w.fromInc = w.full.M.GetDAIncludedHeight()
+			m := w.full.M
+			w.hs.setVis(w.hs.top(), nil)
+			w.ds.setVis(w.ds.top(), nil)
+			pollH := func() bool { return w.pollStore(m.VerifHeaderStoreSignal, w.hs.nPolls, w.lp.hsDone) }
+			pollD := func() bool { return w.pollStore(m.VerifDataStoreSignal, w.ds.nPolls, w.lp.dsDone) }
+			first, second := pollH, pollD
+			if o.Str("order") == "dh" {
+				first, second = pollD, pollH
+			}
+			ok := first() && w.settle() && second() && w.settle()
+			if !ok {
+				select {
+				case <-w.lp.syncDone:
+					w.dead = true
+					w.rep("C02/loop-terminated", "SyncLoop returned while syncing from the P2P stores")
+				default:
+				}
+			}
+			if !w.dead {
+				w.runIncluder()
+			}
+			c.Emit("p2pstore %s hs=%d ds=%d %s", sh, w.hs.top(), w.ds.top(), w.observe())
+			w.monitorP2P()
+			w.monitorStores()
 			w.monitorInclusion(false)
 		case "restart", "crash", "stopheld":
 			if w.full == nil || w.full.M == nil || w.dead {
@@ -906,6 +1081,122 @@ func (w *World) noteNotFound(log []string) {
 			}
 		}
 	}
+}
+
+// p2pItem appends the item a token names to the node's P2P header / data store
+func (w *World) p2pItem(tok string) bool {
+	kind := ""
+	for _, p := range []string{"FH", "XH", "JD", "H", "D"} {
+		if strings.HasPrefix(tok, p) {
+			kind = p
+			break
+		}
+	}
+	if kind == "" {
+		return false
+	}
+	var k uint64
+	rest := tok[len(kind):]
+	if _, err := fmt.Sscan(rest, &k); err != nil || fmt.Sprint(k) != rest || k > w.prod.Height() {
+		return false
+	}
+	sh, d, err := w.prod.Store.GetBlockData(context.Background(), k)
+	if err != nil {
+		return false
+	}
+	gaddr := types.KeyAddress(w.prod.Pub)
+	switch kind {
+	case "H":
+		w.hs.add(sh, tok)
+	case "FH":
+		f := *sh
+		f.Header.AppHash = []byte("forged")
+		f.Signer = types.Signer{PubKey: w.advPub, Address: gaddr}
+		pl, _ := f.Header.MarshalBinary()
+		f.Signature = sign(w.advPriv, pl)
+		w.hs.add(&f, tok)
+	case "XH":
+		x := *sh
+		x.Signature = append([]byte(nil), sh.Signature...)
+		x.Signature[0] ^= 0xff
+		w.hs.add(&x, tok)
+	case "D":
+		w.ds.add(d, tok)
+	case "JD":
+		md := *d.Metadata
+		w.ds.add(&types.Data{Metadata: &md, Txs: types.Txs{types.Tx("junk" + rest)}}, tok)
+	}
+	return true
+}
+
+// monitorStores (C02, P2P stores only): after a poll of both store loops at quiescence, every item at a store height
+// above the chain height the running process started with has been handed to the sync loop; so with the header and
+// (non-empty) data of every block up to h among them, the node holds block h.
+func (w *World) monitorStores() {
+	if w.dead {
+		return
+	}
+	e := w.full
+	h := e.Height()
+	has := func(p interface {
+		top() uint64
+	}, tags []string, base uint64, want string) bool {
+		for i, t := range tags {
+			if pos := base + uint64(i) + 1; t == want && pos > w.p2pStart {
+				return true
+			}
+		}
+		return false
+	}
+	hstar := h
+	for k := h + 1; k <= w.prod.Height(); k++ {
+		if !has(w.hs, w.hs.tags, w.hs.base, fmt.Sprintf("H%d", k)) {
+			break
+		}
+		if !w.isEmptyBlock(k) && !has(w.ds, w.ds.tags, w.ds.base, fmt.Sprintf("D%d", k)) {
+			break
+		}
+		hstar = k
+	}
+	if h >= hstar {
+		return
+	}
+	ctx := context.Background()
+	cause := "other"
+	never := func(fetched map[uint64]bool, top uint64) bool {
+		for p := w.p2pStart + 1; p <= top; p++ {
+			if !fetched[p] {
+				return true
+			}
+		}
+		return false
+	}
+	_, d, err := w.prod.Store.GetBlockData(ctx, h+1)
+	switch {
+	case never(w.hs.fetched, w.hs.top()) || never(w.ds.fetched, w.ds.top()):
+		cause = "heights-never-handed-over"
+	case err == nil && len(d.Txs) > 0:
+		// the recorded findings: a junk item for the stuck height arrived after the genuine data; a repeated tx list
+		seenD := false
+		for _, t := range w.ds.tags {
+			if t == fmt.Sprintf("D%d", h+1) {
+				seenD = true
+			} else if t == fmt.Sprintf("JD%d", h+1) && seenD {
+				w.report("C02/stall/junk-p2p-data-replaced-cached-data", fmt.Sprintf("junk data for height %d arrived after the genuine data", h+1))
+				return
+			}
+		}
+		dc := d.DACommitment()
+		for k := w.ih; k <= w.prod.Height(); k++ {
+			if _, dk, err := w.prod.Store.GetBlockData(ctx, k); err == nil && k != h+1 && len(dk.Txs) > 0 && bytes.Equal(dk.DACommitment(), dc) {
+				w.report("C02/stall/tx-list-repeats-an-earlier-block", fmt.Sprintf("height %d", h+1))
+				return
+			}
+		}
+	}
+	w.report("C02/converge/p2p-stores-only/"+cause,
+		fmt.Sprintf("the node's P2P stores hold (above the height %d it started with) header and data of every block up to %d, both store loops have polled (header store height %d, data store height %d) and everything is quiescent, but the node is at %d",
+			w.p2pStart, hstar, w.hs.top(), w.ds.top(), h))
 }
 
 func marks(m map[string]uint64) string {
